@@ -123,6 +123,10 @@ for r in RECL_LAZY:
     _c01_quick.append(run("reclaim", "proto_" + r, c=1, opt={"ops": 0xee}, weight=0.5))
     _c01_thorough.append(run("reclaim", "proto_" + r, c=2, opt={"ops": 0xee}, weight=2))
     _c01_thorough.append(run("reclaim", "proto_" + r, c=2, opt={"ops": 0x62, "T": 3, "m": 1}, weight=1))
+# the cheap targeted families first: they finish within seconds and must not depend on what the broad runs leave of the budget on a loaded machine
+for _r in _c01_quick:
+    if _r.get("opt", {}).get("fixed") == 4 or _r.get("opt", {}).get("T") == 1 or _r.get("opt", {}).get("ops") == 0x260:
+        _r["first"] = 1
 PLAN["C01"] = {
     "quick": _c01_quick, "thorough": _c01_thorough, "budget_s": {"quick": 190, "thorough": 1300},
     "rule": "client programs: T threads x m operations over {acquire+deref, acquire+hold across later operations, acquire_if_equal, copy/assign then reset the original, "
@@ -290,7 +294,7 @@ _c06_quick = [
     run("kfifo", "kf_hp", c=1, r=1, opt={"k": 2}), run("kfifo", "kf_ebr", c=1, r=1, opt={"k": 2}), run("kfifo", "kf_stamp", c=1, r=0, opt={"k": 2}),
     run("kfifo", "kf_hp", c=2, opt={"k": 1}), run("kfifo", "kf_hp", c=0, r=2, opt={"T": 1, "m": 6, "k": 2, "prefill": 0}),
     # two slots per segment, two preemptions (seed C06e: an insert committed into a segment that advance_head has unlinked but not yet flagged)
-    run("kfifo", "kf_hp", c=2, opt={"k": 2}, weight=0.6), run("kfifo", "kf_ebr", c=2, opt={"k": 2}, weight=0.6),
+    run("kfifo", "kf_hp", c=2, opt={"k": 2}, weight=1.2, first=1), run("kfifo", "kf_ebr", c=2, opt={"k": 2}, weight=1.2, first=1),
     # k that is not a power of two (seed C06c: slot scan with a mask instead of a modulo reaches only some of the k slots)
     run("kfifo", "kb", c=0, r=1, opt={"T": 1, "m": 8, "k": 3, "segs": 3, "prefill": 0}, weight=0.5), run("kfifo", "kb", c=0, r=1, opt={"T": 1, "m": 8, "k": 5, "segs": 2, "prefill": 0}, weight=0.5),
     run("kfifo", "kb", c=0, r=2, opt={"T": 1, "m": 8, "k": 3, "segs": 2, "prefill": 0}, weight=0.5), run("kfifo", "kf_hp", c=0, r=1, opt={"T": 1, "m": 8, "k": 3, "prefill": 0}, weight=0.5),
@@ -441,13 +445,13 @@ LEVEL_TEXT["C13"] = ("all interleavings with <= c preemptions (3 quick, 4 thorou
 TITLES["C14"] = "seqlock::load returns exactly some stored value, never torn or truncated"
 _rt = ["seqrt_b16_s1", "seqrt_b16_s2", "seqrt_b16_s8", "seqrt_b24_s3", "seqrt_b12_s1", "seqrt_b12_s2", "seqrt_b20_s2", "seqrt_b28_s4", "seqrt_b9_s1", "seqrt_b9_s2"]
 PLAN["C14"] = {
-    "quick": [run("lr_seqlock", t, c=0, weight=0.2) for t in _rt] +
+    "quick": [run("lr_seqlock", t, c=0, weight=0.2, first=1) for t in _rt] +
              [run("lr_seqlock", t, c=4) for t in ["seqlock_b16_s1", "seqlock_b16_s2", "seqlock_b16_s3", "seqlock_b24_s2", "seqlock_b12_s2", "seqlock_b16_s4"]] +
              [run("lr_seqlock", "seqlock_b16_s2", c=2, mode="wmm", d=2), run("lr_seqlock", "seqlock_b16_s1", c=2, mode="wmm", d=1),
               run("lr_seqlock", "seqlock_b16_s2", c=2, opt={"writers": 2, "readers": 1, "loads": 2, "stores": 2}, weight=3),
               run("lr_seqlock", "seqlock_b12_s2", c=3, variant="tsanv"),
               # updates whose functor leaves the value bit-identical (seed C14e: such an update skipped the copy into the next slot)
-              run("lr_seqlock", "seqlock_b16_s2", c=3, opt={"noop": 2}, weight=0.6), run("lr_seqlock", "seqlock_b16_s3", c=3, opt={"noop": 1, "stores": 4, "loads": 2}, weight=0.6),
+              run("lr_seqlock", "seqlock_b16_s2", c=3, opt={"noop": 2}, weight=0.6, first=1), run("lr_seqlock", "seqlock_b16_s3", c=3, opt={"noop": 1, "stores": 4, "loads": 2}, weight=0.6),
               run("lr_seqlock", "seqlock_b16_s2", c=2, opt={"noop": 1, "writers": 2, "readers": 1, "loads": 2, "stores": 2}, weight=0.8)],
     "thorough": [run("lr_seqlock", t, c=0, weight=0.2) for t in _rt] +
                 [run("lr_seqlock", t, c=4, opt={"noop": n}) for t in ["seqlock_b16_s1", "seqlock_b16_s2", "seqlock_b16_s3", "seqlock_b16_s4"] for n in (1, 2)] +
@@ -578,7 +582,7 @@ _c10_thorough = [run("vy", "map_" + t, c=0, opt={"T": 1, "m": 4, "keys": 5, "cap
 _vy_sweeps = ["tt_id_hp", "tt_i1_hp", "tt_i4_ebr", "tn_i4_hp", "tn_id_ebr", "st_sid_hp", "st_s1_hp", "sn_sid_ebr", "tm_i4_hp", "tm_id_ebr", "sm_sid_hp"]
 _c10_quick += [run("vy", "sweep_" + t, c=0, weight=0.15) for t in _vy_sweeps]
 # lock-free readers against removals made through an iterator (C11's family; seed C10d breaks C10's "never 'absent' for a key present throughout the call" that way)
-_c10_quick += [run("vy", t, c=1, weight=0.3) for t in ["itf_tn_i1_hp", "itf_st_s1_hp"]]
+_c10_quick += [run("vy", t, c=1, weight=0.6, first=1) for t in ["itf_tn_i1_hp", "itf_st_s1_hp"]]
 _c10_thorough += [run("vy", "itf_" + t, c=2, weight=1) for t in ["tt_i1_hp", "st_s1_hp", "tm_i1_hp", "tn_i1_hp", "sm_s1_hp"]]
 _c10_thorough += [run("vy", "sweep_" + t, c=0, opt={"maxn": 24 if t == "st_s1_hp" else 48, "ncaps": 5}, weight=0.5) for t in _vy_sweeps]
 PLAN["C10"] = {
@@ -602,7 +606,7 @@ _c11_seq = ["it_tt_i1_hp", "it_tt_i2_hp", "it_st_s1_hp", "it_tm_i1_hp", "it_tn_i
 # gives them back; hand-over-hand locking is what keeps the iterator ahead of it - seed C11d): begin() on the bucket holding key 1, ++ into the bucket of 0, 2, 4
 _IT_GROW = {"cap": 2, "steps": 2, "act0": 0, "act1": 1, "keys": 8, "prefill": 23, "updaters": 1, "m": 1, "uemplace": 1, "ukeymask": 64}
 PLAN["C11"] = {
-    "quick": [run("vy", "it_tt_i2_hp", c=2, opt=_IT_GROW, weight=5)] +
+    "quick": [run("vy", "it_tt_i2_hp", c=2, opt=_IT_GROW, weight=5, first=1)] +
              [run("vy", t, c=0, opt={"steps": 4, "keys": 5, "prefill": 31}, weight=0.5) for t in _c11_seq] +
              [run("vy", "it_tt_i2_hp", c=0, opt={"steps": 3, "keys": 8, "prefill": 255}, weight=0.5),
               run("vy", "it_tt_i1_hp", c=1, opt={"steps": 2, "keys": 5, "prefill": 31, "readers": 1, "m": 1}, weight=2),
